@@ -324,8 +324,22 @@ func (r *renderer) stmt(s *stmt) {
 			s.line = r.ln("NILV.x = 1")
 		case 2:
 			s.line = r.ln("NILV()")
-		default:
+		case 3:
 			s.line = r.ln(`G9 = "a" .. NILV`)
+		case 4:
+			s.line = r.ln(`G9 = "abc" + 1`)
+		case 5:
+			s.line = r.ln(`G9 = {} < {}`)
+		case 6:
+			s.line = r.ln(`G9 = #NILV`)
+		case 7:
+			s.line = r.ln(`G9 = -{}`)
+		case 8:
+			s.line = r.ln(`G9 = 1 // 0`)
+		case 9:
+			s.line = r.ln(`G9 = 2^53 | 1.5`)
+		default:
+			s.line = r.ln(`G9 = ("x").y.z`)
 		}
 	}
 }
